@@ -1041,7 +1041,8 @@ func (o *oracle) book(op *Op, ob *Obs, skipCount bool, trigs *[]trig) {
 			// an invalid credential of a stale message: the code as it is counts it
 			// (listed finding); a repaired verifySortition drops it.  Read off the
 			// observation which of the two happened.
-			accepted = ob.Ret == 0 && o.wasCounted(m, ob)
+			// (which tree this is was read off the implementation by probeRepairs)
+			accepted = ob.Ret == 0 && !fixStale
 		}
 		if accepted {
 			switch m.Status {
@@ -1277,14 +1278,29 @@ func (o *oracle) verifyCommit(e *Event) {
 	}
 }
 
+// allMsgs: every vote message of the history, those requested during another one included
+func allMsgs(h *History) []*MsgOp {
+	var out []*MsgOp
+	for k := range h.Ops {
+		op := &h.Ops[k]
+		if op.K == "msg" && op.M != nil {
+			out = append(out, op.M)
+			if op.During != nil && op.During.K == "msg" && op.During.M != nil {
+				out = append(out, op.During.M)
+			}
+		}
+	}
+	return out
+}
+
 func (o *oracle) caseThr() (uint64, uint64) {
 	var p, c uint64
-	for _, op := range o.h.Ops {
-		if op.K == "msg" && op.M.StakeOk {
-			if op.M.T == 3 {
-				c = op.M.Thr
+	for _, m := range allMsgs(o.h) {
+		if m.StakeOk {
+			if m.T == 3 {
+				c = m.Thr
 			} else {
-				p = op.M.Thr
+				p = m.Thr
 			}
 		}
 	}
@@ -1335,10 +1351,9 @@ func (o *oracle) credAccepted(id int, r uint64, i uint32, t int, seats uint32) b
 		ov := ownLookup(o.h, r, i, t)
 		return ov != nil && ov.Seats == seats && ov.Kind == 0
 	}
-	for k := range o.h.Ops {
-		op := &o.h.Ops[k]
-		if op.K == "msg" && op.M.Sender == id && op.M.R == r && op.M.I == i && op.M.T == t && op.M.Votes == seats && !op.M.NoVote &&
-			o.credTruth(op.M) && op.M.StakeOk && op.M.Kind == 0 {
+	for _, m := range allMsgs(o.h) {
+		if m.Sender == id && m.R == r && m.I == i && m.T == t && m.Votes == seats && !m.NoVote &&
+			o.credTruth(m) && m.StakeOk && m.Kind == 0 {
 			return true // some delivery of this vote carried a credential the verifier accepts for these seats
 		}
 	}
